@@ -1,11 +1,107 @@
 // Package rules holds the per-property rule tables and checkers.
 package rules
 
-import "saoverif/internal/core"
+import (
+	"go/types"
+	"strings"
+
+	"golang.org/x/tools/go/ssa"
+
+	"saoverif/internal/core"
+)
 
 // Check is one property's checker: it registers obligations on the run.
 type Check func(r *core.Run)
 
 var Registry = map[string]Check{}
 
-func register(id string, c Check) { Registry[id] = c }
+func register(id string, c Check) {
+	Registry[id] = func(r *core.Run) {
+		memo := map[string]string{}
+		r.Opaque = func(name string) string {
+			if w, ok := memo[name]; ok {
+				return w
+			}
+			w := ""
+			for _, seg := range strings.Split(name, " <- ") {
+				fn := r.P.Func(strings.TrimSpace(seg))
+				if fn == nil {
+					continue
+				}
+				if r.P.Transparent(fn) {
+					for _, o := range r.Owners(fn) {
+						if w == "" {
+							w = heapVeiled(r, r.P.Name(o))
+						}
+					}
+				} else if w == "" {
+					w = heapVeiled(r, seg)
+				}
+			}
+			memo[name] = w
+			return w
+		}
+		c(r)
+	}
+}
+
+// heapVeiled: the named known function has been restructured around a record that one helper (outside the rule
+// vocabulary) builds on the heap and hands back, and that further helpers read: "validate, return a request object,
+// execute on it". What the first helper established about the values it stored in the record is not tracked through
+// the record (field reads of a heap object are not tied to the writes), so rules about such a function can neither
+// be discharged nor asserted.
+func heapVeiled(r *core.Run, name string) string {
+	fn := r.P.Func(name)
+	if fn == nil || len(fn.Blocks) == 0 || r.P.Transparent(fn) {
+		return ""
+	}
+	for _, b := range fn.Blocks {
+		for _, ins := range b.Instrs {
+			c, ok := ins.(*ssa.Call)
+			if !ok || c.Call.IsInvoke() {
+				continue
+			}
+			h := c.Call.StaticCallee()
+			if h == nil || !r.P.Transparent(h) || len(h.Blocks) == 0 {
+				continue
+			}
+			// h returns a pointer to a struct it allocates
+			idx := -1
+			for _, hb := range h.Blocks {
+				ret, ok := hb.Instrs[len(hb.Instrs)-1].(*ssa.Return)
+				if !ok {
+					continue
+				}
+				for i, rv := range ret.Results {
+					if al, ok := rv.(*ssa.Alloc); ok && al.Heap && localStruct(r, al.Type()) != nil {
+						idx = i
+					}
+				}
+			}
+			if idx < 0 {
+				continue
+			}
+			// ... and the caller hands that record on to other helpers outside the vocabulary
+			var rec ssa.Value = c
+			if _, isTup := c.Type().(*types.Tuple); isTup {
+				rec = nil
+				for _, ref := range *c.Referrers() {
+					if ex, ok := ref.(*ssa.Extract); ok && ex.Index == idx {
+						rec = ex
+					}
+				}
+			}
+			if rec == nil {
+				continue
+			}
+			for _, ref := range *rec.Referrers() {
+				if c2, ok := ref.(ssa.CallInstruction); ok && !c2.Common().IsInvoke() {
+					if h2 := c2.Common().StaticCallee(); h2 != nil && r.P.Transparent(h2) {
+						return r.P.Name(fn) + " is built around a record that " + r.P.Name(h) + " allocates and hands back and that " + r.P.Name(h2) + " works on (" + r.P.Pos(c.Pos()) + "): values carried through that heap record are not tracked"
+					}
+				}
+			}
+		}
+	}
+	return ""
+}
